@@ -417,6 +417,19 @@ func (c *Check) absolutePercentage() {
 			if callee := x.Call.StaticCallee(); callee != nil && callee.String() == "math.Abs" {
 				return true
 			}
+			// a helper of the package that computes the ratio: every value it returns
+			if h := x.Call.StaticCallee(); h != nil && fnPkgPath(h) == fnPkgPath(f) && len(h.Blocks) > 0 && h.Signature.Results().Len() == 1 {
+				n := 0
+				for _, hb := range h.Blocks {
+					if ret, ok := hb.Instrs[len(hb.Instrs)-1].(*ssa.Return); ok {
+						n++
+						if !nonNeg(ret.Results[0], seen) {
+							return false
+						}
+					}
+				}
+				return n > 0
+			}
 		case *ssa.BinOp:
 			switch x.Op {
 			case token.MUL, token.QUO, token.ADD:
